@@ -97,6 +97,7 @@ type vTeardownWorld struct {
 	sm       *SessionManager
 	removals int // eBPF "remove subscriber" updates
 	padts    int
+	during   func() // another termination path that arrives while the server is sending its PADT
 }
 
 func verifTeardown() *vTeardownWorld {
@@ -110,7 +111,13 @@ func verifTeardown() *vTeardownWorld {
 	w.t.SetRADIUSClient(radius.VerifAcctClient())
 	w.t.SetIPPool(w.pool)
 	w.t.SetSessionManager(w.sm)
-	w.t.SetSendPADT(func(*Session, []Tag) { w.padts++ })
+	w.t.SetSendPADT(func(*Session, []Tag) {
+		w.padts++
+		if f := w.during; f != nil {
+			w.during = nil
+			f()
+		}
+	})
 	w.t.SetSendLCPTermReq(func(*Session, string) {})
 	w.t.SetUpdateEBPFMaps(func(_ *Session, remove bool) error {
 		if remove {
@@ -174,7 +181,21 @@ func VerifC16_Teardown() {
 			vAssert(stops == 0, when+": Accounting-Stop for a session that never authenticated")
 		}
 	}
-	end(ndPick("end", 6))
+	first := ndPick("end", 6)
+	if first > 0 && ndPick("overlap", 2) == 1 {
+		// the client's own PADT (or an admin action) crosses the server-side termination: it is handled to completion
+		// while the first path is between its entry and its cleanup (sending PADT, waiting for the retry delay)
+		vTag("two-paths-at-once")
+		other := ndPick("other", 2)
+		w.during = func() {
+			if other == 0 {
+				_ = w.t.HandleClientPADT(ss, vMACOwner, ss.ID)
+			} else {
+				_ = w.t.TerminateSession(ss, TerminateCauseAdminReset, "")
+			}
+		}
+	}
+	end(first)
 	check("after the session ended")
 	if again := ndPick("again", 7); again < 6 {
 		vTag("twice")
